@@ -112,6 +112,8 @@ def classify(res, log):
         return "harness", "harness exit %d %s" % (res.rc, err[-500:])
     if res.rc == 42:
         return "fatal", err[-500:]
+    if res.rc == 41:
+        return "fatal", "yylex_init failed"
     if res.rc == 0:
         return "ok", ""
     if res.rc == 2:
